@@ -667,7 +667,9 @@ static void got_key(TickitTerm *tt, TermKey *tk, TermKeyKey *key)
     case TERMKEY_MOUSE_PRESS:   info.type = TICKIT_MOUSEEV_PRESS;   break;
     case TERMKEY_MOUSE_DRAG:    info.type = TICKIT_MOUSEEV_DRAG;    break;
     case TERMKEY_MOUSE_RELEASE: info.type = TICKIT_MOUSEEV_RELEASE; break;
-    default:                    info.type = -1; break;
+    default:
+      /* Not a kind of report we have an event for (e.g. horizontal wheel) */
+      return;
     }
 
     /* Translate PRESS of buttons >= 4 into wheel events */
